@@ -583,6 +583,37 @@ class _MayMust(paths.Flow):
         return st
 
 
+_MAP_HELPER_MEMO = {}
+
+
+def _map_helper_updates(db, cal, map_idx, key_idx):
+    """does the helper (re)bind or remove, in its map_idx-th parameter, the key given as its key_idx-th parameter on every path?"""
+    k = (cal.get("file"), cal.get("pk"), cal.get("psig"), map_idx, key_idx)
+    if k in _MAP_HELPER_MEMO:
+        return _MAP_HELPER_MEMO[k]
+    res = False
+    if cal.get("file") and db.has_file(cal["file"]):
+        hs = [f for f in db.fns(cal["file"], pk=cal.get("pk")) if f.get("psig") == cal.get("psig")]
+        if hs and len(hs[0].get("params", [])) > max(map_idx, key_idx):
+            h = hs[0]
+            mid, kid = h["params"][map_idx]["id"], h["params"][key_idx]["id"]
+
+            def gen(n):
+                if n.get("k") == "call" and callee(n) and callee(n)["name"] in ("set", "operator-=", "remove") and n.get("o") is not None and n.get("a"):
+                    o, a0 = strip(n["o"]), strip(n["a"][0])
+                    if isinstance(o, dict) and o.get("k") == "ref" and o.get("id") == mid and isinstance(a0, dict) and a0.get("id") == kid:
+                        return ("upd",)
+                return ()
+            try:
+                fl = paths.MustEvents(gen)
+                fl.run(h["body"])
+                res = bool(fl.returns) and all("upd" in st for r, st in fl.returns)
+            except paths.Unstructured:
+                res = False
+    _MAP_HELPER_MEMO[k] = res
+    return res
+
+
 def cache_invalidation_rule(ctx, rid):
     """flat_boolean_numerical_domain: on every path that (re)defines a Boolean
     variable in the Boolean component, each of the three maps caching facts
@@ -648,11 +679,13 @@ def cache_invalidation_rule(ctx, rid):
                                 for y in walk(x):
                                     if y.get("k") == "ref" and y.get("id") in pids:
                                         out.append("upd:%s:%d" % (USES, pids[y["id"]]))
-                        # helper taking the map itself by reference: propagate_assign_bool_var(MAP, x, y, neg)
+                        # helper taking the map itself by reference: propagate_assign_bool_var(MAP, x, y, neg).  Credited only
+                        # when the helper's own body updates the map for that key on EVERY path (finding F68: the negated branch
+                        # did nothing when y has no cached constraint)
                         for j, x in enumerate(a):
                             if is_field(x) and deref(x).get("n") in BOOL_MAPS:
                                 for y in a[j + 1:j + 2]:
-                                    if pidx(y) is not None:
+                                    if pidx(y) is not None and _map_helper_updates(ctx.db, callee(n), j, j + 1):
                                         out.append("upd:%s:%d" % (deref(x)["n"], pidx(y)))
                 return out
             fl = _MayMust(gen_may, gen_must, refine=_bottom_refine(fn))
